@@ -165,10 +165,11 @@ def exe_output(content):
 class PV:
     """kind in KINDS and abs None: root of kind / suffix.   kind 'abs': the absolute path `abs`.
     kind in KINDS and abs set: defect model only - declared relativity `kind`, but resolves to `abs`."""
-    __slots__ = ('kind', 'suffix', 'abs', 'depth')
+    __slots__ = ('kind', 'suffix', 'abs', 'depth', 'cwd0', 'irr')
 
-    def __init__(self, kind, suffix='', abs=None, depth=0):
-        self.kind, self.suffix, self.abs, self.depth = kind, suffix, abs, depth
+    def __init__(self, kind, suffix='', abs=None, depth=0, cwd0=None, irr=None):
+        self.kind, self.suffix, self.abs, self.depth, self.cwd0 = kind, suffix, abs, depth, cwd0
+        self.irr = irr  # made by an invalid usage (absolute FILE-NAME + RELATIVITY)
 
     def rel_kind(self):
         return self.kind
@@ -215,9 +216,9 @@ class Reject(Exception):
     'missing' (literal reading of an invalid usage: the named file does not exist below the root - an error at
     validation or execution time is the outcome)"""
 
-    def __init__(self, how, why):
+    def __init__(self, how, why, kind=None):
         Exception.__init__(self, how, why)
-        self.how, self.why = how, why
+        self.how, self.why, self.kind, self.site = how, why, kind, None
 
 
 class Broken(Exception):
@@ -252,6 +253,7 @@ class State:
         self.cwds = {}
         self.act_stdout = None
         self.info = {}  # op index -> data the renderer needs (expected contents ...)
+        self.uses = []  # one record per evaluated PATH (labels)
 
     # -- roots ---------------------------------------------------------------------------------------------
     def root(self, kind):
@@ -290,21 +292,40 @@ class State:
     def _check_kind(self, pv, acc, info, sym):
         a = acc.get(pv.kind)
         if a is None:
-            raise Reject('validation', 'symbol %s has relativity %s' % (sym, pv.kind))
+            raise Reject('validation', 'symbol %s has relativity %s' % (sym, pv.kind), pv.kind)
         if a == 'maybe':
             info.maybe = True
 
     def _join(self, pv, name, info):
         """pv joined with a further FILE-NAME `name` (not starting with '/')"""
         if not name:
-            return PV(pv.kind, pv.suffix, pv.abs, pv.depth + 1)
+            return PV(pv.kind, pv.suffix, pv.abs, pv.depth + 1, pv.cwd0, pv.irr)
         if pv.abs is not None:
-            return PV(pv.kind, pv.suffix, pv.abs + '/' + name, pv.depth + 1)
-        return PV(pv.kind, _j(pv.suffix, name), None, pv.depth + 1)
+            return PV(pv.kind, pv.suffix, pv.abs + '/' + name, pv.depth + 1, pv.cwd0, pv.irr)
+        return PV(pv.kind, _j(pv.suffix, name), None, pv.depth + 1, pv.cwd0, pv.irr)
 
     def eval(self, expr, site, phase, info=None):
         """-> PV ; raises Reject.  info collects 'maybe' / irregular-usage flags."""
         info = info or EvalInfo()
+        try:
+            pv = self._eval(expr, site, phase, info)
+        except Reject as r:
+            r.site = site
+            raise
+        if info.irregular:
+            pv.irr = info.irregular
+        elif pv.irr:
+            info.irregular = pv.irr
+        if pv.kind == 'cd' and pv.cwd0 is None:
+            pv.cwd0 = self.cwd
+        form = 'lead' if expr.get('lead') is not None else ('default' if expr.get('rel') is None else (
+            'sym' if expr['rel'].startswith('sym:') else 'option'))
+        self.uses.append({'site': site, 'phase': phase, 'kind': pv.kind, 'depth': pv.depth, 'form': form,
+                          'refs': any(t == 's' for t, _ in expr['name']),
+                          'cd_moved': pv.kind == 'cd' and pv.cwd0 != self.cwd})
+        return pv
+
+    def _eval(self, expr, site, phase, info):
         conf = SITES[site]
         acc = accepted(site, phase)
         rel, lead, frags = expr.get('rel'), expr.get('lead'), expr['name']
@@ -348,14 +369,14 @@ class State:
                     if const:
                         return PV('abs', '', name)
                     self._check_kind(base, acc, info, sym)
-                    return PV(base.kind, base.suffix, name, base.depth + 1)
+                    return PV(base.kind, base.suffix, name, base.depth + 1, base.cwd0, 'abs+rel')
                 self._check_kind(base, acc, info, sym)
                 return self._join(base, self.real(name).lstrip('/'), info)
             self._check_kind(base, acc, info, sym)
             return self._join(base, name, info)
         if rel == 'here':
             if site != 'def':
-                raise Reject('syntax', '-rel-here outside def')
+                raise Reject('syntax', '-rel-here outside def', 'here')
             here = _j('{HOME}', INC_DIR if expr.get('_inc') else CASE_DIR)
             if is_abs(name):
                 info.irregular = 'abs+rel'
@@ -367,7 +388,7 @@ class State:
             raise Broken('unknown relativity %r' % (rel,))
         a = acc.get(rel)
         if a is None:
-            raise Reject('syntax', 'option %s not accepted' % rel)
+            raise Reject('syntax', 'option %s not accepted' % rel, rel)
         if a == 'maybe':
             info.maybe = True
         if is_abs(name):
@@ -410,6 +431,10 @@ class State:
             raise Broken('copy source %r does not exist' % (src,))
         if self.kind_at(dst) is not None:
             raise Broken('copy destination %r exists' % (dst,))
+        if dst[0] == src[0] and (dst[1] == src[1] or dst[1].startswith(src[1] + '/') or src[1] == ''):
+            raise Broken('copy of %r into itself' % (src,))
+        if k == 'd' and src[0] == 'H' and src[1] in ('', CASE_DIR, INC_DIR):
+            raise Broken('%r holds the files of the test case itself' % (src,))
         self._mkdirs(self._parent(dst))
         if k == 'f':
             self.tree[dst] = list(self.tree[src])
@@ -450,7 +475,18 @@ class State:
             self.cwd = abs_of(*loc)
             self.cwds[i] = self.cwd
         elif k == 'render':
+            for s in op['syms']:
+                if s not in self.paths:
+                    raise Broken('undefined path symbol ' + s)
             self.renders[i] = [self.resolve(self.paths[s]) for s in op['syms']]
+            for s in op['syms']:
+                pv = self.paths[s]
+                if pv.irr:
+                    info.irregular = pv.irr
+                self.uses.append({'site': 'render', 'phase': ph, 'kind': pv.kind, 'depth': pv.depth, 'form': 'ref',
+                                  'refs': False, 'cd_moved': pv.kind == 'cd' and pv.cwd0 != self.cwd})
+            if op['how'] == 'file':
+                self.tree[('SB', 'tmp/o/%d' % i)] = ['r', list(self.renders[i])]
         elif k == 'file':
             pv = self.eval(op['expr'], 'file', ph, info)
             loc = self.locate(pv)
@@ -567,27 +603,28 @@ class State:
 
 
 def tag_of(st, loc):
-    """name of a file that exists directly in the fixture directory loc and nowhere else with that name"""
+    """what identifies the directory loc: ('tag', name of a file that exists directly in it and in no other
+    directory) or ('n', number of direct children) for a directory made by the case itself"""
     t = tag_name(loc[0], loc[1])
     if (loc[0], _j(loc[1], t)) in st.tree:
-        return t
-    # a directory made by the case itself: any direct child that is a file identifies it well enough
+        return 'tag', t
     pre = loc[1] + '/' if loc[1] else ''
-    for k in sorted(st.tree):
-        if k[0] == loc[0] and k[1].startswith(pre) and '/' not in k[1][len(pre):] and st.tree[k][0] == 'f':
-            return k[1][len(pre):]
-    return None
+    n = 0
+    for k in st.tree:
+        if k[0] == loc[0] and k[1].startswith(pre) and k[1] != loc[1] and '/' not in k[1][len(pre):]:
+            n += 1
+    return 'n', n
 
 
 class Expected:
-    __slots__ = ('reject', 'maybe', 'irregular', 'state', 'why')
+    __slots__ = ('reject', 'maybe', 'irregular', 'state', 'why', 'cell')
 
 
 def simulate(case, mode='literal', real=lambda s: s):
     """-> Expected.  reject: None | 'syntax' | 'validation' | 'either'."""
     st = State(case['conf'], mode, real)
     exp = Expected()
-    exp.reject, exp.why = None, None
+    exp.reject, exp.why, exp.cell = None, None, None
     ops = case['ops']
     last = -1
     act_done = False
@@ -605,6 +642,7 @@ def simulate(case, mode='literal', real=lambda s: s):
             st.apply_act(case['act'])
     except Reject as r:
         exp.reject, exp.why = r.how, r.why
+        exp.cell = (r.site, r.kind)
     exp.maybe = st.maybe
     exp.irregular = list(st.irregular)
     exp.state = st
